@@ -47,10 +47,10 @@ Theorem C17_link_history_independent_for_this_tree : forall ctor calc iter_once 
   (forall o v1 v2, agree g_reads v1 v2 -> iter_once o v1 = iter_once o v2) ->
   (forall v1 v2 r, agree g_reads v1 v2 -> adjust v1 r = adjust v2 r) ->
   forall o ms m,
-    let b := fst (run ctor calc iter_once small adjust g_finally_guarded (fresh o) ms) in
-    snd (fly ctor calc iter_once small adjust g_finally_guarded b m)
-      = snd (fly ctor calc iter_once small adjust g_finally_guarded (fresh o) m) /\
-    idle g_reads o (fst (fly ctor calc iter_once small adjust g_finally_guarded b m)).
+    let b := fst (run ctor calc iter_once small adjust g_finally_guarded g_given_mass_fuel_derived (fresh o) ms) in
+    snd (fly ctor calc iter_once small adjust g_finally_guarded g_given_mass_fuel_derived b m)
+      = snd (fly ctor calc iter_once small adjust g_finally_guarded g_given_mass_fuel_derived (fresh o) m) /\
+    idle g_reads o (fst (fly ctor calc iter_once small adjust g_finally_guarded g_given_mass_fuel_derived b m)).
 Proof.
   intros ctor calc iter_once small adjust H1 H2 H3 o ms m.
   destruct C17_link_read_set as (A & B & C & _).
